@@ -1,9 +1,10 @@
 import Driver.Latch
 import Driver.LockFam
 import Driver.Barrier
+import Driver.LR
 open Driver
 
-def comps : List Comp := [LatchD.comp, LockFamD.comp, BarrierD.comp]
+def comps : List Comp := [LatchD.comp, LockFamD.comp, BarrierD.comp, LRD.comp]
 
 def main (args : List String) : IO UInt32 := do
   match args with
